@@ -6,6 +6,7 @@ R07.2 [proof, exhaustive] the character mapping: frames whose 8 characters all c
       IA5 character (1-26 -> A-Z, 48-57 -> 0-9) or to the empty string; a frame with codes 1..8 decodes to "ABCDEFGH";
 R07.3 [proof] category := (type code, 3-bit subtype field) in TC 1-4 contexts; wake class table over all 32x8 pairs:
       (4,1)L (4,2)S (4,3)M (4,4)H (4,5)J (4,7)R, anything else none;
+R07.5 [proof] in every other decode context (all DFs, all other type codes, every Comm-B register) category is not written;
 R07.4 [proof] BDS 2,0: the callsign is stored from a DF20/21 reply iff its BDS selector is 2,0 and the capability gate holds.
 """
 from ..absint import k3 as K3
@@ -62,6 +63,7 @@ def run(facts, rep, tier):
     rep.rule("R07.2", "IA5 subset mapping for all 64 codes and all 8 positions", "P")
     rep.rule("R07.3", "category = (TC, subtype); wake table", "P")
     rep.rule("R07.4", "BDS2,0 callsign iff selector 2,0 and gate", "P")
+    rep.rule("R07.5", "category is written by identification squitters only (never by a Comm-B reply or any other format)", "P")
     out = k2_results(facts, tier)
     results = out["results"]
     n1 = 0
@@ -106,6 +108,28 @@ def run(facts, rep, tier):
                 rep.oblige(ok, ("no-ais", r.ctx["label"], f))
                 if not ok:
                     rep.add(Finding("R07.3", "%s written by TC%d" % (f, tc), "context '%s' stores %s" % (r.ctx["label"], f), None))
+
+    # ---- R07.5: the emitter category belongs to the identification squitter alone.  A Comm-B reply decoded as BDS 2,0 carries
+    # the callsign but no category (its first ME byte is the BDS code 0x20); no other format carries either
+    n5 = 0
+    for r in results:
+        if not accepted(r) or r.df is None:
+            continue
+        tcs = [int(t[2:]) for t in r.ctx["tags"] if t.startswith("tc") and t[2:].isdigit()]
+        if r.df in (17, 18) and (not tcs or 1 <= tcs[0] <= 4):
+            continue            # identification squitters (or a symbolic type code that includes them)
+        n5 += 1
+        sts = stores_of(r, "category")
+        created = r.post_create.fields.get("category") if r.post_create is not None else None
+        bad_create = created is not None and not (isinstance(created, TupleV) and all(isinstance(x, IntV) and x.is_const() and x.lo == 0 for x in created.items))
+        ok = not sts and not bad_create
+        rep.oblige(ok, ("cat-only-ident", r.ctx["label"]))
+        if not ok:
+            what = "stores category = %s" % (repr(sts[-1][1] if sts else created)[:120],)
+            rep.add(Finding("R07.5", "category written by a frame that is not an identification squitter (DF%d)" % r.df,
+                            "context '%s' %s: the emitter category / wake class shown afterwards is not the one the aircraft's "
+                            "identification squitter gave" % (r.ctx["label"], what), None))
+    rep.instances("R07.5", n5, floor=100, what="decode contexts other than DF17/18 TC1-4")
 
     # ---- R07.2: the callsign function, found by role (root callee of the stores into `ais` fields)
     roots = set()
